@@ -13,6 +13,8 @@ Bounded-exhaustive input enumeration with a work meter:
 import asyncio
 import itertools
 import json
+import os
+import shutil
 import sys
 
 import asyncssh
@@ -655,6 +657,138 @@ def reader_jobs():
     return [cases[i::16] for i in range(16)]
 
 
+# ------------------------------------------------------------------ SCP sinks fed by a hostile source, with the local disk failing
+def scp_cases():
+    out = []
+    for role in ('server', 'client'):
+        for size in (0, 10, 100):
+            for sent in sorted({0, size // 2, size, size + 5}):
+                for fail_after in (None, 0, 5):
+                    for ending in ('eof', 'close', 'silence'):
+                        for second in (False, True):
+                            out.append((role, size, sent, fail_after, ending, second))
+    return out
+
+
+def scp_run(case):
+    """The sink (asyncssh server handling `scp -t`, or asyncssh.scp() downloading) is sent a file record that
+    announces `size` bytes, gets `sent` bytes, and then the stream ends (or falls silent); independently the
+    local write starts failing after `fail_after` bytes.  The loop must stay live and the sink must finish
+    once the stream has ended."""
+    import tempfile
+    import asyncssh.sftp as sftp_mod
+    role, size, sent, fail_after, ending, second = case
+    root = tempfile.mkdtemp(prefix='asyncssh-verif-c10-scp-', dir='/dev/shm')
+    loop = P.fresh(0)
+    loop.write_budget = 3000
+    viol = []
+    orig_write = sftp_mod.LocalFile.write
+    written = {'n': 0}
+
+    async def failing_write(self, data, offset):
+        if fail_after is not None and written['n'] + len(data) > fail_after:
+            raise OSError(28, 'No space left on device')
+        written['n'] += len(data)
+        return await orig_write(self, data, offset)
+    sftp_mod.LocalFile.write = failing_write
+    try:
+        record = b'C0644 %d f\n' % size
+        body = b'x' * sent + (b'\0' if sent >= size else b'')
+
+        async def hostile_source(rd, wr, ch):
+            """speaks to a sink: wait for its go-ahead, announce the file, send what we send, then end"""
+            try:
+                await rd.read(1)
+                wr.write(record)
+                await rd.read(1)
+                wr.write(body)
+                if second:
+                    wr.write(b'C0644 3 g\n')
+                if ending == 'eof':
+                    wr.write_eof()
+                elif ending == 'close':
+                    ch.close()
+            except (OSError, asyncssh.Error):
+                pass
+        done = {}
+        if role == 'server':
+            pair = P.Pair(loop, sopts=dict(allow_scp=True, sftp_factory=lambda chan: asyncssh.SFTPServer(chan, chroot=root), encoding=None))
+            pair.handshake()
+
+            async def client():
+                w_, r_, e_ = await pair.c.open_session('scp -t /', encoding=None)
+                await hostile_source(r_, w_, w_.channel)
+                done['chan'] = w_.channel
+            t = loop.create_task(client())
+        else:
+            async def handler(process):
+                await hostile_source(process.stdin, process.stdout, process.channel)
+                if ending != 'silence':
+                    return
+                await asyncio.sleep(10 ** 6)
+            pair = P.Pair(loop, sopts=dict(process_factory=handler, encoding=None))
+            pair.handshake()
+            t = loop.create_task(asyncssh.scp((pair.c, 'src'), os.path.join(root, 'dest')))
+        try:
+            loop.flush_all(horizon=60000)
+        except Livelock as exc:
+            viol.append(('livelock', str(exc)))
+        if ending != 'silence' and not viol:
+            if role == 'client' and not t.done():
+                viol.append(('sink-hangs', 'asyncssh.scp() still pending after the source ended the stream'))
+            if role == 'server':
+                ss = [c for c in pair.s._channels.values()]
+                if ss and ending == 'close':
+                    viol.append(('sink-hangs', 'server channel still open after the source closed it'))
+        if t.done() and not t.cancelled() and t.exception() is not None and not isinstance(t.exception(), (asyncssh.Error, OSError)):
+            viol.append(('undocumented-error', repr(t.exception())))
+        # the endpoint is still alive: a fresh command on the same connection is answered
+        if not viol and pair.c._transport is not None and role == 'server':
+            t2 = loop.create_task(pair.c.run('scp -t /nonexistent-dir/x', stdin=asyncssh.DEVNULL, encoding=None, check=False))
+            try:
+                loop.flush_all(horizon=60000)
+            except Livelock as exc:
+                viol.append(('livelock', 'follow-up command: %s' % exc))
+            if not t2.done():
+                viol.append(('unresponsive', 'a second command on the same connection got no answer'))
+            elif not t2.cancelled():
+                t2.exception()
+        exc = loop.unretrieved()
+        if exc:
+            viol.append(('loop-exception', repr(exc[0].get('exception') or exc[0].get('message'))[:300]))
+        if loop.budget_tripped:
+            viol.append(('work-budget', loop.budget_tripped))
+        if not t.done():
+            t.cancel()
+            try:
+                loop.quiesce()
+            except Livelock:
+                pass
+        return viol
+    except WorkBudgetExceeded as exc:
+        return viol + [('work-budget', str(exc))]
+    finally:
+        sftp_mod.LocalFile.write = orig_write
+        P.done(loop)
+        shutil.rmtree(root, ignore_errors=True)
+
+
+def scp_worker(job):
+    acc = core.Acc()
+    for case in job:
+        try:
+            viol = scp_run(case)
+        except Livelock as exc:
+            viol = [('livelock', str(exc))]
+        acc.add(core.digest(('scp', case)), transitions=3,
+                sample={'scp_sink': case[0], 'announced': case[1], 'sent': case[2], 'write_fails_after': case[3], 'ending': case[4]}
+                if case[1] == 100 and case[2] == 50 and case[3] == 5 and case[4] == 'eof' and not case[5] else None)
+        for k, d in viol:
+            acc.violation('scp:%s:%s:%s' % (k, case[0], case[4]), '%s ; announced %d, sent %d, write fails after %r, second record %s'
+                          % (d, case[1], case[2], case[3], case[5]), {'kind': 'scp', 'case': list(case)})
+    return acc
+
+
 # ------------------------------------------------------------------ main
 def main(tier, seed):
     t0 = core.now()
@@ -668,6 +802,8 @@ def main(tier, seed):
     acc.merge(core.pmap(special_worker, ['dropbear']))
     acc.merge(core.pmap(amp_worker, core.rotate(amp_jobs(tier), seed)))
     acc.merge(core.pmap(reader_worker, reader_jobs()))
+    sc = scp_cases()
+    acc.merge(core.pmap(scp_worker, [sc[i::32] for i in range(32)]))
     n_b = acc.evaluations - n_a
     import c10_parsers
     acc.merge(c10_parsers.run(tier, seed))
@@ -702,6 +838,9 @@ def replay(rep):
         acc.violations = [v for v in full.violations if v['replay'].get('label') == r['label']]
     elif r['kind'] == 'special':
         acc = special_worker(r['job'])
+    elif r['kind'] == 'scp':
+        c = r['case']
+        acc = scp_worker([[tuple(c)]])
     elif r['kind'] == 'reader':
         acc = reader_worker([[tuple(r['job'])]])
     elif r['kind'] == 'amp':
